@@ -12,7 +12,7 @@ Case  c18.bf      payload [alts, rankings, mults, ks]
 Every c18.bf case is also compared with the MIRROR of the (repaired) brute force, c18.bf_algo (Model/PartitionAlgo.v): same
 None-ness and same number of axes for every k; equality of the returned partition is only counted.  The mirror is run
 with the order in which CPython iterates the L-sets (observed by calling /repo's get_L_sets in the worker) as its order
-parameter.  Case c18.algo (m = 9..15): implementation against the mirror only.
+parameter.  Case c18.algo (m = 9..14): implementation against the mirror only.
 rankings : flat strict complete rankings (distinct), storage order; mults : multiplicities (>= 1).
 Defect KF-C18-a (from m = 6 on the brute force was not minimum: pairs only inside one L-set) was found by this check and
 repaired in /repo by 175f7ec; its 77 failing inputs are kept in corpus/C18/fixed-175f7ec-bruteforce-not-minimum.json."""
@@ -30,7 +30,7 @@ RULE = ("approx (seed-dependent): exhaustive small sets (below); random / plante
         "n <= m), m = 1 and m = 2 included; m >= 6: a fixed core of 3 000 profiles (constant seed) + regression profiles + "
         "10 000 (thorough 23 000) seed-dependent profiles, m = 6-8 (thorough 6-9), odd and even m; the corpus (77 inputs of "
         "the repaired defect KF-C18-a, the cap defect 07cd506) runs first; every brute-force case is also compared with "
-        "the mirror bf_algo, and 150 (thorough 2 500) seed-dependent profiles with m = 9-13 (thorough 9-15) with the mirror only. "
+        "the mirror bf_algo, and 150 (thorough 1 200) seed-dependent profiles with m = 9-13 (thorough 9-14) with the mirror only. "
         "non-trivial = reference optimum >= 2 axes")
 EXHAUSTIVE = {"quick": "both functions: all sets of 1-2 distinct strict orders over m<=3, with the ids 1..m and with the ids 0..m-1; brute force: every set of <= 3 strict "
                        "orders over m = 4 and m = 5 containing the identity ranking (= every profile of <= 3 orders up to "
@@ -57,7 +57,7 @@ COVER_FILES = ["properties/subdomains/ordinal/singlepeaked/k_alternative_partiti
                "properties/subdomains/ordinal/singlepeaked/k_alternative_deletion.py"]
 COVER_TIMEOUT_S = 60
 TIMEOUT_S = 120.0
-CHUNK = 8
+CHUNK = 4
 THEOREMS_FOR_OP = {"c18.algo": "bf_sound / bf_complete_min (mirror Model/PartitionAlgo.v)",
                    "c18.approx": "partition_check_correct / check_valid_bound",
                    "c18.bf": "brute_force_ok_correct / min_partition_correct / partition_check_correct"}
@@ -273,9 +273,9 @@ def generate(tier, seed):
     merged.extend(det[j:])
     out[:] = merged
 
-    # ---- brute force against its MIRROR only (no reference optimum at these sizes): m = 9..13 (thorough 9..15)
-    for i in range(150 if not thorough else 2500):
-        m = rng.randint(9, 13 if not thorough else 15)
+    # ---- brute force against its MIRROR only (no reference optimum at these sizes): m = 9..13 (thorough 9..14)
+    for i in range(150 if not thorough else 1200):
+        m = rng.randint(9, 13 if not thorough else 14)
         alts = rand_ids(rng, m)
         votes, mults, style = mixed_votes(rng, i, m, alts)
         c = bf_case(rand_perm(rng, alts), votes, mults, style=style)
@@ -499,7 +499,7 @@ def stats(c, r, m):
     mn = _opt(c, r, m)
     okr = isinstance(r, list) and r[0] == 0
     if c["op"] == "c18.algo":
-        lab.append("algo-only %s" % size)
+        lab.append("algo-only m=9-14")
         if okr and m:
             lab.append("mirror: same partition for every k" if mirror_exact(r, m[0]) else "mirror: same size, other partition")
             lab.extend(["algo-only answer None"] * sum(1 for k, opt in r[1] if not opt))
